@@ -358,6 +358,26 @@ def _evaluators_direct(rng, n):
     return out
 
 
+def _gradterms_direct(rng, natm, ngrids):
+    """The three variants of the gradient-term reduction (conv_interpolation.c): serial and 'old' are the sequential models,
+    'parallel' is the one the interpolator calls; all must produce the same accumulated excsum."""
+    from vlib import boot
+    lib = boot.load_library("libmcider")
+    dp = ctypes.c_void_p
+    atm_g = np.sort(rng.integers(0, natm, size=ngrids)).astype(np.int32)
+    ga_loc = np.searchsorted(atm_g, np.arange(natm + 1)).astype(np.int32)
+    f_g = np.ascontiguousarray(rng.normal(size=ngrids))
+    a = int(rng.integers(natm))
+    out = {}
+    for name, idx in (("serial", atm_g), ("parallel", atm_g), ("old", ga_loc)):
+        exc = np.ascontiguousarray(np.linspace(-1.0, 1.0, natm * 3).reshape(natm, 3))
+        for v in range(3):
+            getattr(lib, "contract_grad_terms_" + name)(exc.ctypes.data_as(dp), f_g.ctypes.data_as(dp), ctypes.c_int(natm), ctypes.c_int(a),
+                                                        ctypes.c_int(v), ctypes.c_int(ngrids), idx.ctypes.data_as(dp))
+        out[name] = exc
+    return out
+
+
 def _direct(case, rec, rng):
     from vlib import boot
     raw = boot.load_library("libnumint")
@@ -374,12 +394,23 @@ def _direct(case, rec, rng):
     rec.tag("fft", "dims=%s nt=%d r2c=%s inplace=%s batch_first=%s" % (dims, nt, r2c, inplace, bf))
     rec.tag("evaluator_samples", nsamp)
 
+    natm = int(rng.choice([1, 2, 5]))
+    ngt = int(rng.choice([1, 3, 17, 1000]))
+    rec.tag("gradterms", "natm=%d ngrids=%d" % (natm, ngt))
+
     def run():
         r = np.random.default_rng(state)
         return {"numint": _numint_direct(raw, r, ng, nvv), "fft": _fft_direct(r, dims, nt, r2c, inplace, bf),
-                "evaluators": _evaluators_direct(r, nsamp)}
+                "evaluators": _evaluators_direct(r, nsamp), "gradterms": _gradterms_direct(r, natm, ngt)}
     set_threads(1)
     ref = run()
+    # the sequential variants are the reference model of the parallel one
+    g = ref["gradterms"]
+    gs = max(float(np.max(np.abs(g["serial"]))), 1e-12)
+    rec.check("gradterms_parallel_vs_serial", float(np.max(np.abs(g["parallel"] - g["serial"]))) / gs, 1e-12,
+              mechanism="contract_grad_terms:parallel!=serial", detail={"natm": natm, "ngrids": ngt})
+    rec.check("gradterms_old_vs_serial", float(np.max(np.abs(g["old"] - g["serial"]))) / gs, 1e-12,
+              mechanism="contract_grad_terms:old!=serial", detail={"natm": natm, "ngrids": ngt})
     for T in case["teams"]:
         set_threads(T)
         out = run()
